@@ -301,3 +301,40 @@ pub fn incoming(rx: tokio::sync::mpsc::UnboundedReceiver<NetIo>) -> impl tokio_s
 pub async fn within<F: Future>(horizon: Duration, fut: F) -> Option<F::Output> {
     tokio::time::timeout(horizon, fut).await.ok()
 }
+
+/// Switch that ends a listener: once `close()` was called the incoming stream yields `None`
+/// (like an acceptor task that went away), whatever is still queued.
+#[derive(Default)]
+pub struct ListenerSwitch {
+    closed: AtomicBool,
+    waker: Mutex<Option<Waker>>,
+}
+
+impl ListenerSwitch {
+    pub fn close(&self) {
+        self.closed.store(true, Ordering::SeqCst);
+        if let Some(w) = self.waker.lock().unwrap().take() {
+            w.wake();
+        }
+    }
+}
+
+pub struct SwitchedIncoming<S> {
+    inner: S,
+    switch: Arc<ListenerSwitch>,
+}
+
+impl<S: tokio_stream::Stream + Unpin> tokio_stream::Stream for SwitchedIncoming<S> {
+    type Item = S::Item;
+    fn poll_next(mut self: Pin<&mut Self>, cx: &mut Context<'_>) -> Poll<Option<S::Item>> {
+        if self.switch.closed.load(Ordering::SeqCst) {
+            return Poll::Ready(None);
+        }
+        *self.switch.waker.lock().unwrap() = Some(cx.waker().clone());
+        Pin::new(&mut self.inner).poll_next(cx)
+    }
+}
+
+pub fn switched<S: tokio_stream::Stream + Unpin>(inner: S, switch: Arc<ListenerSwitch>) -> SwitchedIncoming<S> {
+    SwitchedIncoming { inner, switch }
+}
